@@ -58,6 +58,21 @@ def failing_iter(pairs):
     raise SourceFailed('the iterator failed')
 
 
+class KeyFailed(Exception):
+    pass
+
+
+PERMUTATION = ('<any order of the same content>',)
+
+
+def failing_key(bad):
+    def key(k):
+        if k == bad and type(k) is type(bad):
+            raise KeyFailed('the key function failed')
+        return 0
+    return key
+
+
 def source_failed_outcomes(items, outs):
     """update()/extend() from a source that raises after some pairs: the pairs handed over are in (consumed one by
     one) or none is (the source was read completely first); the source's exception comes out."""
@@ -240,6 +255,9 @@ class C16(BaseCheck):
                 o = {'op': 'sort', 'reverse': r.random() < 0.4}
                 if r.random() < 0.4:
                     o['key'] = r.choice(['parity', 'const'])      # key functions that produce ties (sort must stay stable)
+                elif r.random() < 0.15:
+                    o['key'] = 'failing'          # a key function that raises for one particular key
+                    o['fail_key'] = r.choice(keys)
                 ops.append(o)
             elif op == 'reverse':
                 ops.append({'op': 'reverse'})
@@ -385,7 +403,9 @@ class C16(BaseCheck):
             m.clear()
             return None
         if op == 'sort':
-            if o.get('key'):
+            if o.get('key') == 'failing':
+                m.sort(key=failing_key(o['fail_key']), reverse=o.get('reverse', False))
+            elif o.get('key'):
                 m.sort(key=SORT_KEYS[o['key']], reverse=o.get('reverse', False))
             else:
                 m.sort(reverse=o.get('reverse', False))
@@ -456,6 +476,12 @@ class C16(BaseCheck):
         if op == 'clear':
             return om.clear_outcomes(items)
         if op == 'sort':
+            if o.get('key') == 'failing':
+                if o['fail_key'] not in [p[0] for p in items]:
+                    return [('ok', list(items), om.ANY)]        # every key maps to 0: a stable sort changes nothing
+                # the key function's exception comes out; the content is intact, the order preferably too (a sort that
+                # fails may leave a list in any order: any permutation is accepted and adopted)
+                return [('raise', {'KeyFailed'}, items), ('raise', {'KeyFailed'}, PERMUTATION)]
             if o.get('key'):
                 f = SORT_KEYS[o['key']]
                 return [('ok', sorted(items, key=lambda p: f(p[0]), reverse=o.get('reverse', False)), om.ANY)]
@@ -708,9 +734,11 @@ class C16(BaseCheck):
                                                          'before': before, 'after': got,
                                                          'acceptable': [[x[0], sorted(x[1]) if x[0] == 'raise' else x[1]] for x in outs][:4]}}
                     break
-                hit = [x for x in acc if x[2] == got]
-                if hit:
-                    acc = hit
+                hit = [x for x in acc if x[2] is not PERMUTATION and x[2] == got]
+                if not hit and any(x[2] is PERMUTATION for x in acc) and len(set(map(repr, [p[0] for p in got]))) == len(got) \
+                        and sorted(canon_items(got), key=repr) == sorted(canon_items(before), key=repr):
+                    hit = [('raise', acc[0][1], got)]
+                acc = hit or [x for x in acc if x[2] is not PERMUTATION] or acc
                 if got != acc[0][2]:
                     viol = {'clause': 'refused-changed', 'detail': {'step': step, 'op': o, 'exc': ename,
                                                                     'before': before, 'after': got, 'expected_after': acc[0][2]}}
